@@ -607,6 +607,10 @@ func (a *Array) PopIterate(fn ArrayPopIterationFunc) error {
 		}
 	}
 
+	// All elements are removed, so no nested container is tracked by index anymore.
+	// Stale entries would make later inserts fail in incrementIndexFrom().
+	clear(a.mutableElementIndex)
+
 	return nil
 }
 
